@@ -26,7 +26,7 @@ ASSUMPTIONS = ["darr.array.readcodetxt / darr.raggedarray.readcodetxt applied to
                "mutators are issued in mode r+ only"]
 EXHAUSTIVE = None
 MUST_HIT = ['ragged-len-5', 'ragged-len-6', 'ragged-len-7', 'meta-created', 'meta-deleted', 'overwrite-recreate', 'growth:append',
-            'growth:iterappend', 'growth:generated', 'env:c-locale', 'failed-append-in-history', 'array-history', 'ragged-history', 'copy', 'ops-inside-open-context']
+            'growth:iterappend', 'growth:generated', 'env:c-locale', 'overwrite-refused', 'metadata-changed-through-its-own-accessmode', 'failed-append-in-history', 'array-history', 'ragged-history', 'copy', 'ops-inside-open-context']
 
 
 def execute(ctx, spec):
@@ -69,6 +69,13 @@ def growth_specs():
               [{'o': 'trunc', 'i': 3, 'by': 'path'}, {'o': 'iterappend', 'items': [{'n': 0, 'seed': 40, 'form': 'nd'}, {'n': 2, 'seed': 41, 'form': 'nd'}], 'gen': True},
                {'o': 'trunc', 'i': 1, 'by': 'obj'}, {'o': 'append', 'item': {'n': 3, 'seed': 42, 'form': 'nd'}}]
         yield {'kind': 'ragged', 'growth': 'append', 'start': start, 'ops': ops}
+    # a read-only Array whose metadata object alone is switched to r+; a refused re-creation over an array with metadata
+    for how in ('asarray', 'create'):
+        for meta in (False, True):
+            st0 = {'dt': {'t': 'float32', 'bo': '>'}, 'shape': [2, 2], 'seed': 6, 'how': how, 'mode': 'r', 'meta': meta, 'layout': 'C', 'chunklen': 2}
+            yield {'start': st0, 'ops': [{'o': 'meta-own-mode', 'a': 'clear', 'k': 'a'}, {'o': 'meta-own-mode', 'a': 'set', 'k': 'a'},
+                                         {'o': 'overwrite-refused', 'what': 'strings'}, {'o': 'meta-own-mode', 'a': 'set', 'k': 'b'},
+                                         {'o': 'meta-own-mode', 'a': 'clear', 'k': 'a'}, {'o': 'overwrite-refused', 'what': 'bools'}]}
     # Array handles constructed read-only, switched to r+, then first metadata key created / last one removed
     for how in ('asarray', 'create'):
         for meta in (False, True):
@@ -109,7 +116,7 @@ def task_enum(ctx, col, shard, L):
 
 
 def task_random(ctx, col, shard, n):
-    sa = hist.st_array_history(max_ops=ctx.pick(8, 25), extra=('meta', 'meta', 'overwrite'))
+    sa = hist.st_array_history(max_ops=ctx.pick(8, 25), extra=('meta', 'meta', 'overwrite', 'meta-own-mode'))
     hyp_search(ctx, col, sa, lambda s: execute(ctx, s), shard_seed(ctx, shard), n)
     sr = rhist.st_ragged_history(max_ops=ctx.pick(8, 25), extra=('meta', 'overwrite', 'copy')).map(lambda s: dict(s, kind='ragged'))
     hyp_search(ctx, col, sr, lambda s: execute(ctx, s), shard_seed(ctx, shard) + 3, max(10, n // 3))
